@@ -41,3 +41,11 @@ func (f *FramedVerif) SendMsg(e any, m unixsocket.Msg) error { return f.s.SendMs
 
 // RecvMsg receives one gob value with attachments.
 func (f *FramedVerif) RecvMsg(e any) (unixsocket.Msg, error) { return f.s.RecvMsg(e) }
+
+// InitPidVerif returns the host pid of the container init of an environment.
+func InitPidVerif(e Environment) int {
+	if c, ok := e.(*container); ok && c.process != nil {
+		return c.process.Pid
+	}
+	return 0
+}
